@@ -18,5 +18,7 @@ def register(group):
     # (Model/Isect.v line_line) + the exact-rational correspondence of c11.py.
     for n in (2, 3, 4):
         g.append(('gen_bezier2polynomial_real_%d' % n, 'bezier2polynomial', [('p', T.rtup(n))], T.LR))
+    # exists only in the repaired tree (fixes/C12-subdivision-closed-boxes-extent.diff)
+    g.append(('gen_box_extent', 'box_extent', [('xmin', 'R'), ('xmax', 'R'), ('ymin', 'R'), ('ymax', 'R')], 'R'))
     g.append(('gen_bezier_by_line_2', 'bezier_by_line_intersections',
               [('bezier', T.ctup(3)), ('line', T.ctup(2))], ('list', ('tuple', ['R', 'R']))))
